@@ -1263,12 +1263,17 @@ func main() {
 	defer run.Finish()
 	setup()
 	r := hx.NewRand(run.Seed)
-	// C06_SECTIONS (development aid): comma-separated subset of sel,imports,lint,breaking,place,yaml
+	// C06_SECTIONS (development aid): comma-separated subset of keys,sel,imports,lint,breaking,place,yaml
 	on := func(name string) bool {
 		s := os.Getenv("C06_SECTIONS")
 		return s == "" || slices.Contains(strings.Split(s, ","), name)
 	}
 	nestingOracle()
+	// the configuration-key family runs FIRST: hx keeps a bounded number of oracle failures, and
+	// the recorded comment-ignore findings of section E fire on every run
+	if on("keys") && run.Only < 0 {
+		defer sectionKeys()()
+	}
 	if on("sel") {
 		sectionSelection(r.Fork(1))
 	}
